@@ -98,8 +98,77 @@ type layoutCtx struct {
 	soNames map[string]string // concrete shared-object type name -> its Shr_get_name() constant
 	// variant of a dynamic opcode family: the constant the receiver field (op.opType) is assumed to hold
 	variantField string
-	variantVal   string                       // constant's exact value
-	found        map[string]map[string]string // discovered: field -> {constant value -> constant name}
+	variantVal   string                         // constant's exact value
+	found        map[string]map[string]string   // discovered: field -> {constant value -> constant name}
+	decls        map[types.Object]*ast.FuncDecl // function/method bodies of the package (helper inlining)
+	callDepth    int
+}
+
+// evalCall evaluates a call of a helper of the package that returns one integer (e.g.
+// `func (op J) locationBits(arch *Arch) int`): the body is walked under the current mode/variant with
+// its integer parameters bound to the arguments; the value is the first return on the path taken.
+// A return under a condition the engine cannot resolve makes the result opaque.
+func (lc *layoutCtx) evalCall(call *ast.CallExpr, callee types.Object, en lenv) (lform, bool) {
+	if lc.decls == nil {
+		lc.decls = map[types.Object]*ast.FuncDecl{}
+		core.FuncDecls(lc.pk, func(_ *ast.File, fd *ast.FuncDecl) {
+			if o := lc.info.Defs[fd.Name]; o != nil {
+				lc.decls[o] = fd
+			}
+		})
+	}
+	fd := lc.decls[callee]
+	if fd == nil || lc.callDepth >= 3 || fd.Type.Results == nil || len(fd.Type.Results.List) != 1 {
+		return lform{}, false
+	}
+	if b, ok := lc.info.TypeOf(fd.Type.Results.List[0].Type).Underlying().(*types.Basic); !ok || b.Info()&types.IsInteger == 0 {
+		return lform{}, false
+	}
+	ce := lenv{}
+	idx := 0
+	for _, f := range fd.Type.Params.List {
+		for _, n := range f.Names {
+			if idx < len(call.Args) {
+				if o := lc.info.ObjectOf(n); o != nil {
+					if b, ok := o.Type().Underlying().(*types.Basic); ok && b.Info()&types.IsInteger != 0 {
+						ce[o] = lc.eval(call.Args[idx], en)
+					}
+				}
+			}
+			idx++
+		}
+	}
+	savedRecv := lc.recv
+	if fd.Recv != nil && len(fd.Recv.List) > 0 && len(fd.Recv.List[0].Names) > 0 {
+		lc.recv = lc.info.ObjectOf(fd.Recv.List[0].Names[0])
+	}
+	lc.callDepth++
+	var ret *lform
+	opaque := false
+	var unresolved [][2]token.Pos
+	lc.walk(fd.Body.List, ce, func(n ast.Node, e2 lenv) {
+		switch x := n.(type) {
+		case *ast.IfStmt, *ast.SwitchStmt, *ast.ForStmt, *ast.RangeStmt, *ast.TypeSwitchStmt, *ast.SelectStmt:
+			unresolved = append(unresolved, [2]token.Pos{n.Pos(), n.End()})
+		case *ast.ReturnStmt:
+			if ret != nil || len(x.Results) != 1 {
+				return
+			}
+			for _, u := range unresolved {
+				if x.Pos() >= u[0] && x.Pos() <= u[1] {
+					opaque = true
+				}
+			}
+			v := lc.eval(x.Results[0], e2)
+			ret = &v
+		}
+	})
+	lc.callDepth--
+	lc.recv = savedRecv
+	if ret == nil || opaque {
+		return lform{}, false
+	}
+	return *ret, true
 }
 
 // recvFieldOf: `op.F` on the method receiver -> F
@@ -225,6 +294,9 @@ func (lc *layoutCtx) eval(e ast.Expr, en lenv) lform {
 				}
 			case "len":
 				return lsym("?len")
+			}
+			if v, ok := lc.evalCall(x, c, en); ok {
+				return v
 			}
 			return lsym("?call:" + c.Name())
 		}
@@ -544,7 +616,7 @@ type lfield struct {
 	off, w lform
 	src    string // provenance / printer / text
 	pos    token.Pos
-	single bool // hdl single-bit form [A]
+	single bool     // hdl single-bit form [A]
 	kind   string   // operand kind: register | input | output | shared | number | ""
 	uses   []string // how the decoded value is used (dis: printer kind; sim: array kinds it indexes)
 }
@@ -659,8 +731,8 @@ func (lc *layoutCtx) extract(v *opViews, fd *ast.FuncDecl) {
 		}
 		var loops []loopB
 		partialProv := map[types.Object]string{}
-		loopNameKind := map[*ast.ForStmt]string{}
-		var curLoop *ast.ForStmt
+		loopNameKind := map[ast.Node]string{}
+		var curLoop ast.Node
 		nameKindOf := func(n ast.Node) string {
 			k := ""
 			ast.Inspect(n, func(m ast.Node) bool {
@@ -680,8 +752,104 @@ func (lc *layoutCtx) extract(v *opViews, fd *ast.FuncDecl) {
 			})
 			return k
 		}
-		lc.walk(fd.Body.List, en, func(n ast.Node, en lenv) {
+		// closures of the Assembler that build a field (`encodeReg := func(name string) string {…}`) are
+		// inlined at each call; a `for _, w := range words` whose length the function has pinned
+		// (`if len(words) != n { return … }`) contributes its body n times
+		closures := map[types.Object]*ast.FuncLit{}
+		var wordsObj types.Object
+		for _, p := range fd.Type.Params.List {
+			for _, n := range p.Names {
+				if _, ok := lc.info.TypeOf(p.Type).Underlying().(*types.Slice); ok {
+					wordsObj = lc.info.ObjectOf(n)
+				}
+			}
+		}
+		wordsLen := 0
+		ast.Inspect(fd.Body, func(m ast.Node) bool {
+			be, ok := m.(*ast.BinaryExpr)
+			if !ok || be.Op != token.NEQ {
+				return true
+			}
+			call, ok := ast.Unparen(be.X).(*ast.CallExpr)
+			if !ok || len(call.Args) != 1 {
+				return true
+			}
+			if id, ok := call.Fun.(*ast.Ident); !ok || id.Name != "len" {
+				return true
+			}
+			if aid, ok := ast.Unparen(call.Args[0]).(*ast.Ident); ok && wordsObj != nil && lc.info.ObjectOf(aid) == wordsObj {
+				if tv, ok := lc.info.Types[be.Y]; ok && tv.Value != nil {
+					if v, ok := constant.Int64Val(constant.ToInt(tv.Value)); ok && wordsLen == 0 {
+						wordsLen = int(v)
+					}
+				}
+			}
+			return true
+		})
+		inlineDepth := 0
+		var visitAsm func(n ast.Node, en lenv)
+		var emitField func(call *ast.CallExpr, en lenv)
+		emitField = func(call *ast.CallExpr, en lenv) {
+			w := lc.eval(call.Args[0], en)
+			prov := "?"
+			val := ast.Unparen(call.Args[1])
+			if vc, ok := val.(*ast.CallExpr); ok {
+				if c2 := core.CalleeOf(lc.info, vc); c2 != nil && c2.Name() == "get_binary" && len(vc.Args) == 1 {
+					prov = "get_binary(?)"
+					if aid, ok := ast.Unparen(vc.Args[0]).(*ast.Ident); ok {
+						for _, l := range loops {
+							if l.obj == lc.info.ObjectOf(aid) {
+								prov = "index<" + l.bound.String()
+							}
+						}
+					}
+				}
+			} else if vid, ok := val.(*ast.Ident); ok {
+				if p, ok := partialProv[lc.info.ObjectOf(vid)]; ok {
+					prov = p
+				}
+			}
+			kind := ""
+			switch {
+			case strings.HasPrefix(prov, "Process_input"):
+				kind = "input"
+			case strings.HasPrefix(prov, "Process_output"):
+				kind = "output"
+			case strings.HasPrefix(prov, "Process_shared"):
+				kind = "shared"
+			case strings.HasPrefix(prov, "Process_number"):
+				kind = "number"
+			case strings.HasPrefix(prov, "index<"):
+				kind = loopNameKind[curLoop]
+			}
+			v.asm = append(v.asm, lfield{w: w, src: prov, pos: call.Pos(), kind: kind})
+		}
+		visitAsm = func(n ast.Node, en lenv) {
 			switch s := n.(type) {
+			case *ast.ReturnStmt:
+				if inlineDepth > 0 {
+					for _, res := range s.Results {
+						if call, ok := ast.Unparen(res).(*ast.CallExpr); ok {
+							if c := core.CalleeOf(lc.info, call); c != nil && c.Name() == "zeros_prefix" && len(call.Args) == 2 {
+								emitField(call, en)
+							}
+						}
+					}
+				}
+			case *ast.RangeStmt:
+				// for i := range n  (an integer bound): the same search loop as for i := 0; i < n; i++
+				if b, ok := lc.info.TypeOf(s.X).Underlying().(*types.Basic); ok && b.Info()&types.IsInteger != 0 {
+					if id, ok := s.Key.(*ast.Ident); ok {
+						loops = append(loops, loopB{lc.info.ObjectOf(id), lc.eval(s.X, en)})
+						loopNameKind[s] = nameKindOf(s.Body)
+						curLoop = s
+					}
+				}
+				if id, ok := ast.Unparen(s.X).(*ast.Ident); ok && wordsObj != nil && lc.info.ObjectOf(id) == wordsObj && wordsLen > 1 {
+					for k := 1; k < wordsLen; k++ {
+						lc.walk(s.Body.List, cloneEnv(en), visitAsm)
+					}
+				}
 			case *ast.ForStmt:
 				if as, ok := s.Init.(*ast.AssignStmt); ok && len(as.Lhs) == 1 && len(as.Rhs) == 1 {
 					if be, ok := s.Cond.(*ast.BinaryExpr); ok && (be.Op == token.LSS) {
@@ -717,6 +885,12 @@ func (lc *layoutCtx) extract(v *opViews, fd *ast.FuncDecl) {
 				if len(s.Rhs) != 1 {
 					return
 				}
+				if fl, ok := s.Rhs[0].(*ast.FuncLit); ok && len(s.Lhs) == 1 {
+					if id, ok := s.Lhs[0].(*ast.Ident); ok {
+						closures[lc.info.ObjectOf(id)] = fl
+					}
+					return
+				}
 				if call, ok := s.Rhs[0].(*ast.CallExpr); ok {
 					if c := core.CalleeOf(lc.info, call); c != nil && strings.HasPrefix(c.Name(), "Process_") && len(s.Lhs) >= 1 {
 						if id, ok := s.Lhs[0].(*ast.Ident); ok {
@@ -728,43 +902,20 @@ func (lc *layoutCtx) extract(v *opViews, fd *ast.FuncDecl) {
 						}
 					}
 					if c := core.CalleeOf(lc.info, call); c != nil && c.Name() == "zeros_prefix" && len(call.Args) == 2 && (s.Tok == token.ADD_ASSIGN || s.Tok == token.ASSIGN || s.Tok == token.DEFINE) {
-						w := lc.eval(call.Args[0], en)
-						prov := "?"
-						val := ast.Unparen(call.Args[1])
-						if vc, ok := val.(*ast.CallExpr); ok {
-							if c2 := core.CalleeOf(lc.info, vc); c2 != nil && c2.Name() == "get_binary" && len(vc.Args) == 1 {
-								prov = "get_binary(?)"
-								if aid, ok := ast.Unparen(vc.Args[0]).(*ast.Ident); ok {
-									for _, l := range loops {
-										if l.obj == lc.info.ObjectOf(aid) {
-											prov = "index<" + l.bound.String()
-										}
-									}
-								}
-							}
-						} else if vid, ok := val.(*ast.Ident); ok {
-							if p, ok := partialProv[lc.info.ObjectOf(vid)]; ok {
-								prov = p
-							}
+						emitField(call, en)
+					}
+					// call of a field-building closure: inline its body
+					if fid, ok := ast.Unparen(call.Fun).(*ast.Ident); ok {
+						if fl, ok := closures[lc.info.ObjectOf(fid)]; ok && inlineDepth < 2 {
+							inlineDepth++
+							lc.walk(fl.Body.List, cloneEnv(en), visitAsm)
+							inlineDepth--
 						}
-						kind := ""
-						switch {
-						case strings.HasPrefix(prov, "Process_input"):
-							kind = "input"
-						case strings.HasPrefix(prov, "Process_output"):
-							kind = "output"
-						case strings.HasPrefix(prov, "Process_shared"):
-							kind = "shared"
-						case strings.HasPrefix(prov, "Process_number"):
-							kind = "number"
-						case strings.HasPrefix(prov, "index<"):
-							kind = loopNameKind[curLoop]
-						}
-						v.asm = append(v.asm, lfield{w: w, src: prov, pos: call.Pos(), kind: kind})
 					}
 				}
 			}
-		})
+		}
+		lc.walk(fd.Body.List, en, visitAsm)
 		off := lconst(0)
 		for i := range v.asm {
 			v.asm[i].off = off
